@@ -58,6 +58,8 @@ import (
 func TestVerif(t *testing.T) {
 	drv.Main(t,
 		drv.Wrap(drv.Engine[c14Case]{Property: "C14", Name: "c14", Gen: genC14, Run: runC14, BatchChecks: 100, GCEvery: 16}),
+		drv.Wrap(drv.Engine[c14Case]{Property: "C14", Name: "c14-ws", Gen: func(t *rapid.T) c14Case { return genC14For(t, "ws") }, Run: runC14, BatchChecks: 50, GCEvery: 8}),
+		drv.Wrap(drv.Engine[c14Case]{Property: "C14", Name: "c14-grpc", Gen: func(t *rapid.T) c14Case { return genC14For(t, "grpc") }, Run: runC14, BatchChecks: 50, GCEvery: 8}),
 	)
 }
 
@@ -195,12 +197,19 @@ func genC14Scripts(t *rapid.T, c *c14Case) {
 	}
 }
 
-func genC14(t *rapid.T) c14Case {
-	c := c14Case{Transport: "mock", Seed: rapid.Uint32().Draw(t, "seed"), Strategy: rapid.IntRange(0, 2).Draw(t, "strategy")}
-	bufs := []int{0, 1, 1, 2, 3, 10, 10, 11}
-	c.ReqBuf = rapid.SampledFrom(bufs).Draw(t, "req_buf")
-	c.ResBuf = rapid.SampledFrom(bufs).Draw(t, "res_buf")
-	c.ViaNet = rapid.Bool().Draw(t, "via_net")
+func genC14(t *rapid.T) c14Case { return genC14For(t, "mock") }
+
+func genC14For(t *rapid.T, transport string) c14Case {
+	c := c14Case{Transport: transport, Seed: rapid.Uint32().Draw(t, "seed"), Strategy: rapid.IntRange(0, 2).Draw(t, "strategy")}
+	switch transport {
+	case "mock":
+		bufs := []int{0, 1, 1, 2, 3, 10, 10, 11}
+		c.ReqBuf = rapid.SampledFrom(bufs).Draw(t, "req_buf")
+		c.ResBuf = rapid.SampledFrom(bufs).Draw(t, "res_buf")
+		c.ViaNet = rapid.Bool().Draw(t, "via_net")
+	case "ws":
+		c.Codec = rapid.SampledFrom([]string{"json", "msgpack"}).Draw(t, "codec")
+	}
 	genC14Scripts(t, &c)
 	c.Client = c14Plan(c)
 	return c
@@ -213,21 +222,22 @@ func genC14(t *rapid.T) c14Case {
 // does not depend on the interleaving (only a return or a CloseSend can unblock the other
 // side besides data, and both only ever help). The model is conservative about how much
 // may be in flight: for the in-memory transport exactly the configured channel capacity;
-// for the network transports three small (<= 1 KiB) messages per direction, and a larger
-// message only when the other side is already waiting to receive it. A transport with more
+// for the network transports a few small (<= 1 KiB) messages per direction (gRPC three,
+// websocket two), and a larger message only when the other side is already waiting to
+// receive it. A transport with more
 // room than the model can only unblock more. The one thing the model takes from the
 // documentation rather than from a capacity: once the handler has returned, no client call
 // blocks (Send reports end-of-stream, Receive reports the terminal result, CloseSend "lets
 // the server know", which needs no one to listen).
 //
-// The plan edits the client script only: a client operation that would wait forever is
-// dropped, and when the handler would wait forever for a client that has finished, the
-// operation that releases it is appended (CloseSend for a handler waiting in Receive, a
-// drain for a handler waiting in Send).
+// The plan edits the client script only: where both sides (or the handler alone, the client
+// having finished) would wait forever, the client operation that releases the handler is
+// inserted at that point (CloseSend for a handler waiting in Receive, a receive or a drain
+// for a handler waiting in Send).
 
 type c14Queue struct {
 	sizes []int // -1 = end-of-stream marker of CloseSend
-	cap   int   // messages; <0 = network rule
+	cap   int   // messages; <0 = network rule with -cap small messages
 }
 
 const c14Small = 1024
@@ -239,7 +249,7 @@ func (q *c14Queue) fits(size int, peerWaiting bool) bool {
 	if q.cap >= 0 {
 		return len(q.sizes) < q.cap
 	}
-	if size > c14Small || len(q.sizes) >= 3 {
+	if size > c14Small || len(q.sizes) >= -q.cap {
 		return false
 	}
 	for _, s := range q.sizes {
@@ -254,8 +264,14 @@ func c14Plan(c c14Case) []c14Op {
 	client := append([]c14Op(nil), c.Client...)
 	for round := 0; round < 200; round++ {
 		req, res := &c14Queue{cap: c.ReqBuf}, &c14Queue{cap: c.ResBuf}
-		if c.Transport != "mock" {
-			req.cap, res.cap = -1, -1
+		switch c.Transport {
+		case "grpc":
+			req.cap, res.cap = -3, -3
+		case "ws":
+			// The in-memory connection holds four writes per direction and a websocket
+			// peer only reads inside Receive; the handler's return needs two of them (the
+			// close message and the close frame), which leaves two for data.
+			req.cap, res.cap = -2, -2
 		}
 		ci, si := 0, 0
 		closed, returned, clientEnded, serverEOF := false, false, false, false
@@ -336,22 +352,36 @@ func c14Plan(c c14Case) []c14Op {
 			si++
 			return true
 		}
-		for stepClient() || stepServer() {
+		for {
+			// a side that starts waiting in a receive changes what the other may do
+			// (hand-over to a waiting receiver), so run until nothing changes at all
+			pc, ps, pcw, psw, pr := ci, si, cWait, sWait, returned
+			for stepClient() {
+			}
+			for stepServer() {
+			}
+			if pc == ci && ps == si && pcw == cWait && psw == sWait && pr == returned {
+				break
+			}
 		}
 		if ci >= len(client) && returned {
 			return client
 		}
+		// Every repair lets the handler get at least one operation further, so the loop ends.
+		release := c14Op{K: "close"} // a handler waiting in Receive is released by CloseSend
+		if si < len(c.Server) && c.Server[si].K == "send" {
+			release = c14Op{K: "recv"} // a handler waiting in Send by a receive
+			if ci >= len(client) {
+				release = c14Op{K: "drain"}
+			}
+		}
 		if ci < len(client) {
-			// the client waits forever: drop the operation
-			client = append(client[:ci:ci], client[ci+1:]...)
+			// both wait: the client first does what releases the handler
+			client = append(client[:ci:ci], append([]c14Op{release}, client[ci:]...)...)
 			continue
 		}
 		// the client has finished and the handler waits for it
-		if c.Server[si].K == "recv" {
-			client = append(client, c14Op{K: "close"})
-		} else {
-			client = append(client, c14Op{K: "drain"})
-		}
+		client = append(client, release)
 	}
 	panic("c14Plan: no fixpoint")
 }
@@ -491,6 +521,9 @@ func runC14(t *testing.T, c c14Case, st *drv.Stats) (fail *drv.Failure) {
 		return drv.Failf("harness", "bad-case", "ret %d out of range", c.Ret)
 	}
 	var virtual time.Duration
+	if c.Transport == "ws" {
+		c14WarmUp()
+	}
 	synctest.Test(t, func(t *testing.T) {
 		t0 := time.Now()
 		fail = runC14In(c, st, true)
@@ -507,6 +540,13 @@ func runC14In(c c14Case, st *drv.Stats, bubble bool) (fail *drv.Failure) {
 	switch c.Transport {
 	case "mock":
 		tr = c14Mock(c)
+	case "grpc":
+		tr = c14GRPC(c)
+	case "ws":
+		var err error
+		if tr, err = c14WS(c, bubble); err != nil {
+			return drv.Failf("harness", "ws-setup", "%v", err)
+		}
 	default:
 		return drv.Failf("harness", "bad-case", "unknown transport %q", c.Transport)
 	}
@@ -515,6 +555,7 @@ func runC14In(c c14Case, st *drv.Stats, bubble bool) (fail *drv.Failure) {
 	ctx, cancel := context.WithCancel(context.Background())
 	defer cancel()
 	var serverStream freighter.ServerStream[Request, Response]
+	var clientStream freighter.ClientStream[Request, Response]
 
 	tr.server.BindHandler(func(_ context.Context, srv freighter.ServerStream[Request, Response]) error {
 		h.mu.Lock()
@@ -567,6 +608,9 @@ func runC14In(c c14Case, st *drv.Stats, bubble bool) (fail *drv.Failure) {
 			h.mu.Unlock()
 			return nil
 		}
+		h.mu.Lock()
+		clientStream = stream
+		h.mu.Unlock()
 		nSent := 0
 		for i, op := range c.Client {
 			sim.Yield(sim.ClassTask, "c"+strconv.Itoa(i)+" "+op.K)
@@ -639,15 +683,26 @@ func runC14In(c c14Case, st *drv.Stats, bubble bool) (fail *drv.Failure) {
 	if runErr != nil {
 		if _, ok := runErr.(*sim.ErrDeadlock); !ok {
 			st.Inconcl("step_budget_exceeded")
-			c14Cleanup(tr, cancel, nil)
+			go c14Cleanup(tr, cancel, clientStream)
 			return nil
 		}
+		if f := c14Check(c, h, st); f != nil {
+			// what did complete already breaks a rule: the more specific report
+			go c14Cleanup(tr, cancel, clientStream)
+			return f
+		}
 		sig, msg := c14Stuck(h)
-		fail = drv.Failf("stuck", c.Transport+":"+sig, "%s: %s; neither script is waiting for the other by its own making (see the planning model)\nhistory:\n%s", c.Transport, msg, h.dump())
-		c14Cleanup(tr, cancel, nil)
+		stacks := ""
+		if dl, ok := runErr.(*sim.ErrDeadlock); ok && os.Getenv("VERIF_C14_STACKS") != "" {
+			stacks = "\ngoroutines of the bubble:\n" + dl.Stacks
+		}
+		fail = drv.Failf("stuck", c.Transport+":"+sig, "%s: %s; neither script is waiting for the other by its own making (see the planning model)\nhistory:\n%s%s", c.Transport, msg, h.dump(), stacks)
+		// best effort only: whatever stays blocked is abandoned with the bubble
+		go c14Cleanup(tr, cancel, clientStream)
 		return fail
 	}
 	if len(taskErrs) > 0 {
+		go c14Cleanup(tr, cancel, clientStream)
 		return drv.Failf("panic", c.Transport+":"+c14PanicSig(taskErrs[0]), "%s\nhistory:\n%s", taskErrs[0], h.dump())
 	}
 	if h.streamErr != nil {
@@ -655,7 +710,11 @@ func runC14In(c c14Case, st *drv.Stats, bubble bool) (fail *drv.Failure) {
 	}
 	_ = serverStream
 	fail = c14Check(c, h, st)
-	c14Cleanup(tr, cancel, nil)
+	c14Cleanup(tr, cancel, clientStream)
+	if bubble && os.Getenv("VERIF_C14_STACKS") != "" {
+		synctest.Wait()
+		fmt.Println("C14 goroutines left in the bubble after cleanup:\n" + sim.AllStacks())
+	}
 	if fail == nil {
 		var shape strings.Builder
 		fmt.Fprintf(&shape, "%s|%d|%d|%v|%s|%d|", c.Transport, c.ReqBuf, c.ResBuf, c.ViaNet, c.Codec, c.Ret)
@@ -706,7 +765,19 @@ func c14PanicSig(s string) string {
 }
 
 // c14Cleanup releases whatever the scripts left behind so that the bubble can end.
-func c14Cleanup(tr c14Transport, cancel func(), _ any) {
+func c14Cleanup(tr c14Transport, cancel func(), stream freighter.ClientStream[Request, Response]) {
+	if stream != nil {
+		// the transport may still be handing over the terminal result (and responses the
+		// script never asked for); take them so that its goroutines can finish
+		func() {
+			defer func() { _ = recover() }()
+			for n := 0; n < 10_000; n++ {
+				if _, err := stream.Receive(); err != nil {
+					break
+				}
+			}
+		}()
+	}
 	cancel()
 	if tr.stop != nil {
 		tr.stop()
@@ -759,6 +830,9 @@ func c14Check(c c14Case, h *c14Hist, st *drv.Stats) *drv.Failure {
 	var cSendOK, sSendOK, cRecvOK, sRecvOK []*c14Event
 	var cSends, cRecvs, sRecvs, cCloses []*c14Event
 	for _, e := range h.events {
+		if e.end == 0 {
+			continue // the call never returned (the run is being reported as stuck)
+		}
 		switch {
 		case e.side == 'c' && e.op.K == "send":
 			cSends = append(cSends, e)
@@ -783,7 +857,13 @@ func c14Check(c c14Case, h *c14Hist, st *drv.Stats) *drv.Failure {
 		case e.side == 'c' && e.op.K == "close":
 			cCloses = append(cCloses, e)
 			if e.err != nil {
-				return failf("closesend-failed", c14ErrSig(e.err), "CloseSend failed: %v", e.err)
+				// Neither the statement nor stream.go says what CloseSend returns. A failure
+				// while the handler is still running means the handler is never told; once
+				// the handler has returned there is no one left to tell.
+				if h.retSeq == 0 || e.end < h.retSeq {
+					return failf("closesend-failed", c14ErrSig(e.err), "CloseSend failed while the handler was running: %v", e.err)
+				}
+				st.Probe("closesend_error_after_handler_returned")
 			}
 		}
 	}
@@ -846,6 +926,11 @@ func c14Check(c c14Case, h *c14Hist, st *drv.Stats) *drv.Failure {
 			return failf("premature-end", c14ErrSig(e.err), "a client receive failed with %q before the handler returned", firstLineC14(e.err.Error()))
 		}
 		if !ret.match(e.err) {
+			for _, snd := range cSends {
+				if snd.err != nil && snd.end < e.start && snd.err.Error() == e.err.Error() && !errors.Is(snd.err, freighter.EOF) && !errors.Is(snd.err, freighter.ErrStreamClosed) {
+					return failf("wrong-terminal-error", "receive-repeats-failed-send:"+c14ErrSig(e.err), "the handler returned %s (%v); client send #%d had failed with %q and the client's receive then reported that same error instead of the handler's result", ret.name, ret.err, snd.id, firstLineC14(e.err.Error()))
+				}
+			}
 			return failf("wrong-terminal-error", ret.name+":"+c14ErrSig(e.err), "the handler returned %s (%v); the client's receive reported %q, which does not match", ret.name, ret.err, firstLineC14(e.err.Error()))
 		}
 		if len(cRecvOK) != len(sSendOK) {
@@ -930,7 +1015,11 @@ func c14Check(c c14Case, h *c14Hist, st *drv.Stats) *drv.Failure {
 			}
 			st.Probe("client_send_after_closesend")
 		default:
-			return failf("client-send-failed", c14ErrSig(e.err), "client send #%d failed with %q (no transport fault was injected)", e.id, firstLineC14(e.err.Error()))
+			if returned {
+				// documented: "If the server closed the stream -> Returns a freighter.EOF error"
+				return failf("client-send-failed", "after-handler-returned:"+c14ErrSig(e.err), "client send #%d, issued after the handler had returned, failed with %q (documented: freighter.EOF; no transport fault was injected)", e.id, firstLineC14(e.err.Error()))
+			}
+			return failf("client-send-failed", "handler-running:"+c14ErrSig(e.err), "client send #%d failed with %q while the handler was running (no transport fault was injected)", e.id, firstLineC14(e.err.Error()))
 		}
 	}
 	// ---- probes ---------------------------------------------------------------------------
